@@ -46,6 +46,12 @@ def gen_source(rng):
     if rng.random() < 0.4:
         extra.append("vec  (1 2 3);")
         vs["vec"] = [1, 2, 3]
+    if rng.random() < 0.5:
+        # floats that the writer spells in exponent notation with a one-digit mantissa (1e-05, 1e+20, 5e-07): spelled
+        # differently in the source, computed by an expression, or as a list item
+        extra.append(rng.choice(["tol  0.00001;", "big  100000000000000000000.0;", "sm  1.0e-6;", "eps  0.0000005;", "tols  (0.00001 1.0E+22 2.5e-7);",
+                                 'scaled  "1 / 100000";'] + ([f'scaled  "${n} / 1000000"' + ";" for n in vs if n != "vec"][:1])))
+        nontrivial = True
     for i in range(rng.randrange(0, 4)):
         kind = rng.randrange(6)
         k = f"e{i}_{gen.plain_key(rng)}"
